@@ -93,8 +93,8 @@ def run(prop, tier, extra=None):
             p2.push(hist[i:i + 40000], "c%d" % (i // 40000), timeout=3000)
         p2.confirm(v, lambda scen, kind, detail, rec=None: {"family": "containers", "kind": kind, "container": scen.get("kind")})
         st2 = {"container_histories": len(hist), "container_replay": p2.stats,
-               "container_rule": "every sequence of %d add / add-with-spoofed-length / remove / serialize operations over 11 container "
-                                 "kinds (TCP, IPv4, IPv6 extension headers, ICMPv6, DHCP, DHCPv6, 802.11 tagged parameters, PPPoE tags, "
+               "container_rule": "every sequence of %d add / add-with-spoofed-length / remove / serialize operations over 12 container "
+                                 "kinds (TCP, IPv4, IPv6 extension headers, ICMPv6, DHCP, DHCP with its single-octet Pad / End codes, DHCPv6, 802.11 tagged parameters, PPPoE tags, "
                                  "RTP CSRC list, LLC frame formats, MLDv2 records), checked after every operation" % (3 if quick else 4)}
     if prop in ("C05", "C02", "C04"):
         # every other layer class: catalogue compositions.  C05: read by the extended dissector (Stack2);
